@@ -785,4 +785,11 @@ func init() {
 	addParts("C05", part{name: "mixed", gen: genMixed, monitors: []Monitor{monC05Sim}, labels: commonLabels, nontrivial: ntC05Sim, quick: 200, thorough: 6000})
 }
 
+func init() {
+	register(&checkDef{prop: "C12", parts: []part{
+		{name: "c12", gen: genC12, monitors: []Monitor{monC12, monC14}, labels: labelsC12, nontrivial: ntC12, quick: 800, thorough: 25000},
+	},
+		rule: "model-based registry histories: open(key) with keys from a small colliding pool incl. nil and no key function, close from the handler side / by Stop / by context / by carrier break, RPCs routed through AsChannel or KeyAsChannel(k) (with bursts), Ready, WaitForReady with virtual-time timeouts, AllReverseTunnels, executed one at a time to quiescence against the real handler and against a list model in lock-step; yield points between the two registration / deregistration steps armed; non-trivial = at least two tunnels share a key and a close happened between routed RPCs"})
+}
+
 var _ = strings.Join
